@@ -38,6 +38,7 @@ def classify(msg):
 
 
 def scan_trusted(lines):
+    """every construct in the generated unit that is assumed rather than proved, with the item it applies to"""
     hits = []
     for n, ln in enumerate(lines, 1):
         s = ln.strip()
@@ -45,9 +46,17 @@ def scan_trusted(lines):
             continue
         for p in TRUST_PATTERNS:
             if p in s:
-                hits.append('%d: %s' % (n, s[:160]))
+                what = s[:160]
+                if s.startswith('#['):
+                    # an attribute: name the item it sits on
+                    for k in range(n, min(n + 4, len(lines))):
+                        t = lines[k].strip()
+                        if t and not t.startswith('#[') and not t.startswith('//'):
+                            what = s + '  ' + t[:150]
+                            break
+                hits.append(what)
                 break
-    return hits
+    return sorted(set(hits))
 
 
 def count_clauses(lines):
